@@ -587,7 +587,7 @@ class AccruedInterest(Contract):
         return Fl(self.amount(c)[0])
 
     def hints(self, c):
-        if c.accrue is not True:
+        if c.accrue is not True or c.exc is not None:
             return []
         vo = SymBrokerView(c.I, c.self, c.old)
         return [SumDelta("equity_plus_interest", EquityFam(c.self), [vo.cash], self.amount(c)[0], old=c.old, new=c.new)]
